@@ -32,7 +32,8 @@ MANIFEST = {
             'sharing/resharing abstracted: the simulator runs the real protocols); Python float round(b*2^f) is an input of the '
             'model. NOT proved in Coq: pow_bound, division/reciprocal (_rec/_norm Newton iteration), sin/cos: implementation-level '
             'oracle only. Known findings (recorded from the implementation, not modelled): F-C02-1 division/reciprocal error '
-            'grows like 1/|y| and exceeds 16(1+|x|) units for |y| < 2^-5; F-C02-2 division returns 0 for every input on '
+            'grows like 1/|y|: it exceeds 16(1+|x|) units but stays within the envelope 16(1+|x|) + 4(1+|x|)/|y| (measured need 1.65); '
+            'beyond the envelope is a violation; F-C02-2 division returns 0 for every input on '
             'types with l > 2f+1 (normalisation constant 2^(f-l+1) rounds to 0); F-C02-3 sin/cos error grows like |x| '
             '(> 4 units for |x| >= 128 on all types); F-C02-4 (mpc.trunc(list) read the caller\'s list after returning) was repaired in /repo by '
             'df316c0 and is an ordinary case now (trunc of a list followed by reverse/overwrite of the caller\'s list).',
@@ -40,6 +41,10 @@ MANIFEST = {
 }
 
 TYPES = [(32, 16), (16, 8), (24, 5), (64, 32), (8, 4)]
+# envelope constant of the known division defect F-C02-1: error <= 16(1+|x|) + DIV_C (1+|x|)/|y| units.  Dense sweep, m=1
+# ((8,4) exhaustive, (16,8) all |y|<2 + samples, (32,16) 35819 and (64,32) 9367 sampled divisions): the excess over
+# 16(1+|x|), times |y|/(1+|x|), was at most 1.65 for x/y and 0.74 for 1/y; 4 leaves a margin of 2.4.
+DIV_C = 4
 CONFIGS = [(1, 0, False), (1, 0, True), (3, 1, False), (3, 1, True), (5, 2, False), (5, 2, True)]
 
 
@@ -241,18 +246,26 @@ def check_case(ctx, cfg, l, f, case, res, stats):
         else:
             x, y = X[0], Fr(pub) * U
         j = bucket(y, f)
-        small = j >= 5
-        sig = 'div-bound op=%s |y|%s2^-5 (2^%d<=|y|<2^%d) type=%s' % (
-            {'div': 'div', 'rec': 'reciprocal', 'div_pub': 'div-public'}[op], '<' if small else '>=', -(j + 1), -j,
-            'l>2f+1' if l > 2 * f + 1 else 'l<=2f+1')
+        opn = {'div': 'div', 'rec': 'reciprocal', 'div_pub': 'div-public'}[op]
         exact = x * U / y
         bound = 16 * (1 + abs(x) / U)
         err = abs(Fr(vals[0]) - exact)
         k = 'div j=%d' % j
         stats[k] = max(stats.get(k, 0.0), float(err / bound))
-        if err > bound:
-            return fail(sig, exact, bound, err)
-        return True
+        if err <= bound:
+            return True
+        if l > 2 * f + 1:            # F-C02-2: normalisation constant rounds to 0 on these types
+            return fail('div-bound op=%s |y|%s2^-5 (2^%d<=|y|<2^%d) type=l>2f+1' % (opn, '<' if j >= 5 else '>=', -(j + 1), -j),
+                        exact, bound, err)
+        # F-C02-1 by mechanism: the normalise-Newton-rescale reciprocal carries an error proportional to 1/|y|.
+        # Envelope E(x,y) = 16(1+|x|) + DIV_C (1+|x|)/|y| units (x, y as values); measured need: c <= 1.65 (div), 0.74 (1/y).
+        env = bound + DIV_C * (1 + abs(x) / U) * U / abs(y)
+        base['envelope_units'] = str(env)
+        stats['div excess*|y|/(1+|x|)'] = max(stats.get('div excess*|y|/(1+|x|)', 0.0),
+                                              float((err - bound) * abs(y) / U / (1 + abs(x) / U)))
+        if op != 'div_pub' and err <= env:
+            return fail('div-bound op=%s error<=envelope(1/|y|)' % opn, exact, bound, err)
+        return fail('div-bound op=%s error>envelope(1/|y|) (2^%d<=|y|<2^%d)' % (opn, -(j + 1), -j), exact, env, err)
     if op == 'pow':
         x = X[0] / U
         return within(vals[0], x ** pub * U, pub * (1 + abs(x)) ** (pub - 1), 'pow-bound n=%d' % pub)
@@ -469,9 +482,15 @@ def check_comp(ctx, cfg, l, f, rec, stats):
         within(0, a * b * c * U, 1 + abs(a), 'compose-bound op=chain-mul')
     elif op == 'chain (a*b)/c':
         a, b, c = (Fr(v, U) for v in ins)
-        j = bucket(ins[2], f)
-        within(0, a * b / c * U, 16 * (1 + abs(a * b) + Fr(1, U)) + 1 / abs(c),
-               'div-bound op=div |y|%s2^-5 (2^%d<=|y|<2^%d) type=l<=2f+1' % ('<' if j >= 5 else '>=', -(j + 1), -j))
+        exact = a * b / c * U
+        bound = 16 * (1 + abs(a * b) + Fr(1, U)) + 1 / abs(c)
+        err = abs(Fr(vals[0]) - exact)
+        stats[op] = max(stats.get(op, 0.0), float(err / bound))
+        if err > bound:
+            env = bound + DIV_C * (1 + abs(a * b) + Fr(1, U)) / abs(c)
+            base.update({'exact_scaled': str(exact), 'bound_units': str(bound), 'envelope_units': str(env), 'error_units': float(err)})
+            ctx.violation('div-bound op=div error<=envelope(1/|y|)' if err <= env else
+                          'div-bound op=div error>envelope(1/|y|) chain', base)
 
 
 def composition_stream(ctx, Sim, stats_all):
